@@ -130,7 +130,49 @@ async fn episode(p: &EpParams) -> EpReport {
         let t = rng.pick(&topics).clone();
         let s = rng.pick(&subs).clone();
         let step: String;
-        match rng.below(20) {
+        match rng.below(21) {
+            20 => {
+                // two DeleteSubscription calls cross while the topic is kept busy; the moment either of
+                // them has returned OK the subscription must be gone from its topic's list (no settling
+                // in between: this is what a client sees right after its delete returned)
+                let Some(ms) = seq.m.subs.get(&s).cloned() else { continue };
+                if ms.topic_deleted || !seq.m.topics.contains_key(&ms.topic) {
+                    continue;
+                }
+                for i in 0..rng.range(0, 30) {
+                    let (c, t2) = (Cx::new(&w, 120 + i as u32), ms.topic.clone());
+                    tokio::spawn(async move {
+                        let _ = c.list_topic_subs(&t2, 0, "").await;
+                    });
+                }
+                let (c1, s1) = (Cx::new(&w, 5), s.clone());
+                let first = tokio::spawn(async move { c1.delete_sub(&s1).await });
+                for _ in 0..rng.below(6) {
+                    tokio::task::yield_now().await;
+                }
+                let second = Cx::new(&w, 6).delete_sub(&s).await;
+                if second.is_ok() {
+                    match Cx::new(&w, 7).list_topic_subs(&ms.topic, 1000, "").await {
+                        Ok((names, _)) if names.contains(&s) => {
+                            rep.viol("C11", "C11:listed-after-delete-returned", format!("DeleteSubscription({}) returned OK and ListTopicSubscriptions({}) issued afterwards still lists it", short(&s), short(&ms.topic)));
+                        }
+                        _ => {}
+                    }
+                    if Cx::new(&w, 7).get_sub(&s).await.is_ok() {
+                        rep.viol("C11", "C11:found-after-delete-returned", format!("DeleteSubscription({}) returned OK and GetSubscription issued afterwards still finds it", short(&s)));
+                    }
+                }
+                let r1 = first.await;
+                w.settle().await;
+                if second.is_ok() || matches!(r1, Ok(Ok(()))) {
+                    seq.m.delete_sub(&s);
+                    deleted_names.insert(s.clone());
+                }
+                seq.steps.push(format!("crossing delete_sub({}) x2 on a busy topic", short(&s)));
+                seq.after_step("DeleteSub").await;
+                rep.inc("crossing_deletes_checked_at_once");
+                step = "crossing_deletes".into();
+            }
             19 => {
                 // a DeleteTopic that looked its topic up, was held back (as a request waiting for room in
                 // the topic's mailbox is) and reaches the *old* topic's actor only after the topic was
